@@ -10,7 +10,7 @@ import bisect, json, os, re, shutil, subprocess, time
 from . import build, run
 
 WORKDIR = os.path.join(build.WORK, "macrocase") if not build.ALT else os.path.join(os.path.dirname(build.HARNESS), "macrocase")
-MODEL_BIN = os.path.join(build.LEAN, ".lake", "build", "bin", "model")
+MODEL_BIN = build.model_bin()
 
 # Display text of the error kinds: /repo/src/proc-macros/pattern.rs PatError::to_str
 KIND_TEXT = {
